@@ -5,6 +5,7 @@ package simrt
 
 import (
 	"github.com/zerx-lab/wordZero/pkg/verifrt"
+	"runtime"
 	"time"
 
 	"verif/sim"
@@ -86,6 +87,7 @@ func Uninstall() {
 	verifrt.Native = false
 	verifrt.AcquireHook = nil
 	verifrt.ReleasedHook = nil
+	verifrt.PollHook = nil
 	verifrt.IOHook = nil
 	verifrt.IOFault = nil
 	verifrt.PointHook = nil
@@ -186,6 +188,7 @@ func ioFault(st *IOStats, fault func(n int64, kind, path string) error, kind, pa
 // LockStats counts what the lock seam saw.
 type LockStats struct {
 	Acquires, Blocks int64
+	Polls            int64 // fruitless attempts of channel operations that handed the baton on
 }
 
 // InstallLocks makes every lock operation of the library a yield point of s.
@@ -193,7 +196,25 @@ func InstallLocks(s *sched.Sched) *LockStats {
 	ls := &LockStats{}
 	verifrt.AcquireHook = func(st *verifrt.LockState, write bool) { acquire(s, ls, st, write) }
 	verifrt.ReleasedHook = func(st *verifrt.LockState, write bool) { released(s, st) }
+	verifrt.PollHook = func() bool { return poll(s, ls) }
 	return ls
+}
+
+// poll: a task waits for a channel of the library. It hands the baton on and tries again when it is scheduled next; after
+// many fruitless rounds (nobody who holds the baton ever serves the channel) it gives up polling and blocks for real.
+//
+//go:norace
+func poll(s *sched.Sched, ls *LockStats) bool {
+	if !s.Active() || s.Cur() < 0 {
+		return false
+	}
+	ls.Polls++
+	if ls.Polls%4096 == 0 {
+		return false
+	}
+	runtime.Gosched() // goroutines the library started itself get a chance too
+	s.Yield()
+	return true
 }
 
 //go:norace
